@@ -260,7 +260,7 @@ class StateFamily:
     self.note = note
     self.shrink = shrink
     # check(case, acc) for replay: case = {"history": [...]} -> re-expand that history
-    self.check = check or (lambda case, acc: self.expand(jdec(case["history"]) if not isinstance(case["history"], list) else case["history"], acc))
+    self.check = check or (lambda case, acc: self.expand(case["history"], acc))
     self.n = len(initial)
 
 
@@ -442,15 +442,15 @@ def _first_matching(fam, case, clause, disc):
 
 
 def _expand_case(fam, case, sub):
-  h = case["history"]
+  """re-executes the case of a state family: fam.check(case, acc) (default: expand case["history"])"""
   signal.setitimer(signal.ITIMER_REAL, fam.timeout)
   try:
-    fam.expand(h, sub)
+    fam.check(case, sub)
   except CaseTimeout:
-    sub.violation(f"{fam.prop}.timeout", fam.name, {"history": h})
+    sub.violation(f"{fam.prop}.timeout", fam.name, case)
   except Exception as e:  # pylint: disable=broad-except
     if innermost_ttconv_frame(e.__traceback__) is not None:
-      sub.violation(f"{fam.prop}.crash", exc_disc(e), {"history": h}, observed=repr(e)[:300])
+      sub.violation(f"{fam.prop}.crash", exc_disc(e), case, observed=repr(e)[:300])
     else:
       sub.harness_errors.append({"trace": traceback.format_exc()[-3000:]})
   finally:
